@@ -1119,11 +1119,18 @@ func (s *levelsController) addSplits(cd *compactDef) {
 
 func (cd *compactDef) lockLevels() {
 	cd.thisLevel.RLock()
-	cd.nextLevel.RLock()
+	// For a compaction within one level (the last level into itself) both handlers are
+	// the same. Read-locking an RWMutex twice can deadlock if a writer queues up in
+	// between, so lock it only once.
+	if cd.nextLevel != cd.thisLevel {
+		cd.nextLevel.RLock()
+	}
 }
 
 func (cd *compactDef) unlockLevels() {
-	cd.nextLevel.RUnlock()
+	if cd.nextLevel != cd.thisLevel {
+		cd.nextLevel.RUnlock()
+	}
 	cd.thisLevel.RUnlock()
 }
 
